@@ -67,12 +67,16 @@ def zip1 {β γ δ : Type} (f : β → γ → δ) (a : List β) (b : List γ) : 
   if compat a.length b.length then .ok (List.zipWith f (bcastRow b.length a) (bcastRow a.length b))
   else .error .value
 
-/-- elementwise binary operation on two 2-D arrays, with broadcasting of rows and columns -/
-def zip2 {β γ δ : Type} (f : β → γ → δ) (A : List (List β)) (B : List (List γ)) : Py.M (List (List δ)) :=
-  let P := List.zip (bcastRow B.length A) (bcastRow A.length B)
-  if compat A.length B.length && P.all (fun p => compat p.1.length p.2.length) then
+/-- two lists of rows of the same number, row by row (each pair of rows is broadcast) -/
+def zipRows {β γ δ : Type} (f : β → γ → δ) (A : List (List β)) (B : List (List γ)) : Py.M (List (List δ)) :=
+  let P := List.zip A B
+  if P.all (fun p => compat p.1.length p.2.length) then
     .ok (P.map (fun p => List.zipWith f (bcastRow p.2.length p.1) (bcastRow p.1.length p.2)))
   else .error .value
+
+/-- elementwise binary operation on two 2-D arrays, with broadcasting of rows and columns -/
+def zip2 {β γ δ : Type} (f : β → γ → δ) (A : List (List β)) (B : List (List γ)) : Py.M (List (List δ)) :=
+  if compat A.length B.length then zipRows f (bcastRow B.length A) (bcastRow A.length B) else .error .value
 
 /-- elementwise unary operation / operation with a scalar on a 2-D array -/
 def map2 {β γ : Type} (f : β → γ) (A : List (List β)) : List (List γ) := A.map (fun r => r.map f)
